@@ -44,6 +44,9 @@ CHECKS['C09'] = dict(text='Probe struct types covering every supported kind and 
 CHECKS['C10'] = dict(text='For each typed document kind (.dsc, .changes, debian/control, Packages, Sources, best-checksum selector) documents are rendered by the driver in the real Debian layout from a model with symbolic leaves, and the real typed parsers (Unmarshal with reflect modelled over the interpreter heap, struct tags straight from go/types) are executed symbolically: z3 shows on every path that a canonical dump of every struct field and accessor equals the model.',
              note='Trusted: go/ssa, interpreter, reflect model, z3; the canonical dump functions in the harness. The control file inside a .deb is covered under C14.',
              ref='DESIGN.md 2/C10')
+CHECKS['C19'] = dict(text='For every build-dependency graph on 3 sources (thorough: 4), rendered as .dsc texts with "Binary: a, b" lists, symbolic names and every carrier of an edge (three build-dependency fields, alternatives, architecture restrictions) plus decoys that must be ignored, the real ParseDsc + OrderDSCForBuild + topsort (from SSA) are executed symbolically: acyclic graphs must yield a permutation with every required edge respected and the same order on a second call, cyclic ones an error.',
+             note='Trusted: go/ssa, interpreter, reflect model, z3. The graph shapes are enumerated; names and the parser paths they induce are symbolic.',
+             ref='DESIGN.md 2/C19')
 NA = {}
 props = [json.loads(l) for l in open(os.path.join(V, 'properties.jsonl'))]
 checks = []
